@@ -326,6 +326,17 @@ impl T {
             }
         }
         let g = circ::verif::global_epoch();
+        // the epoch the participant pinned in is the one the oldest live guard was taken at
+        for &s in &live {
+            let taken = self.guards[s].announced;
+            if g < taken || g - taken > 1 {
+                mon::observer_violation(
+                    "C14",
+                    "C14|epoch-advanced-twice-within-critical-section",
+                    format!("after {}: guard g{} has been live since epoch {} (the participant never unpinned) but the global epoch is {}", after, s, taken, g),
+                );
+            }
+        }
         if g < st.announced || g - st.announced > 1 {
             mon::observer_violation(
                 "C14",
@@ -341,6 +352,9 @@ impl T {
             let a = circ::verif::local_state(self.guards[live[0]].g.as_ref().unwrap()).map_or(0, |s| s.announced);
             self.guards[live[0]].announced = a;
         }
+    }
+    fn guard_holds(&self, slot: usize) -> bool {
+        self.snaps.iter().any(|x| x.as_ref().map_or(false, |s| s.guard == slot)) || self.wsnaps.iter().any(|x| x.as_ref().map_or(false, |s| s.guard == slot))
     }
     fn invalidate(&mut self, slot: usize) {
         for i in 0..NSN {
@@ -637,6 +651,7 @@ impl T {
                     let [a, b] = Rc::new_many::<2>(VNode::new(id, 3));
                     mon::register(id, a.verif_addr(), a.as_ref().unwrap() as *const VNode as usize);
                     l_add(&obj(id).rc, 2);
+                    obj(id).bulkish.store(true, SeqCst);
                     self.touch(Some(id));
                     self.lg(format!("r{},r{} = Rc::new_many::<2>(#{})", regs[0], regs[1], id));
                     self.set_rc(regs[0], a, Some(id));
@@ -645,6 +660,7 @@ impl T {
                     let [a, b, c] = Rc::new_many::<3>(VNode::new(id, 3));
                     mon::register(id, a.verif_addr(), a.as_ref().unwrap() as *const VNode as usize);
                     l_add(&obj(id).rc, 3);
+                    obj(id).bulkish.store(true, SeqCst);
                     self.touch(Some(id));
                     self.lg(format!("r{},r{},r{} = Rc::new_many::<3>(#{})", regs[0], regs[1], regs[2], id));
                     self.set_rc(regs[0], a, Some(id));
@@ -665,6 +681,7 @@ impl T {
                 mon::register(id, first.verif_addr(), first.as_ref().unwrap() as *const VNode as usize);
                 l_add(&obj(id).rc, 1);
                 l_add(&obj(id).bulk, n as i32 - 1);
+                obj(id).bulkish.store(true, SeqCst);
                 self.touch(Some(id));
                 let i = self.rng.below(NRC as u64) as usize;
                 self.lg(format!("it = Rc::new_many_iter(#{}, {}); r{} = it.next()", id, n, i));
@@ -979,6 +996,9 @@ impl T {
                 let i = *self.rng.pick(&c);
                 let id = self.rid[i];
                 let before = self.rc[i].verif_counts().unwrap();
+                if let Some(i) = id {
+                    obj(i).bulkish.store(true, SeqCst);
+                }
                 let ws: [Weak<VNode>; 2] = self.rc[i].weak_many::<2>();
                 mon::eval("bulk-counts");
                 for w in &ws {
@@ -1358,7 +1378,9 @@ impl T {
                 if l.is_empty() {
                     return false;
                 }
-                let s = *self.rng.pick(&l);
+                // mostly re-activate a guard that protects nothing, so that what was loaded under the others stays in use
+                let bare: Vec<usize> = l.iter().copied().filter(|&gs| !self.guard_holds(gs)).collect();
+                let s = if !bare.is_empty() && self.rng.chance(3, 4) { *self.rng.pick(&bare) } else { *self.rng.pick(&l) };
                 self.invalidate(s);
                 mon::guard_deregister(self.guards[s].serial);
                 self.lg(format!("g{}.reactivate()", s));
@@ -1372,7 +1394,8 @@ impl T {
                 if l.is_empty() {
                     return false;
                 }
-                let s = *self.rng.pick(&l);
+                let bare: Vec<usize> = l.iter().copied().filter(|&gs| !self.guard_holds(gs)).collect();
+                let s = if !bare.is_empty() && self.rng.chance(3, 4) { *self.rng.pick(&bare) } else { *self.rng.pick(&l) };
                 self.invalidate(s);
                 mon::guard_deregister(self.guards[s].serial);
                 self.lg(format!("g{}.reactivate_after(churn)", s));
